@@ -627,6 +627,10 @@ TrUnitConsts == IsOp("unit_consts") /\ KeepAll /\ UNCHANGED sw /\ IsFin(E.res.in
                                          = B!MulMag(r[1], B!Pow2Mag(IF r[2] > E.res.in_s.e THEN r[2] - E.res.in_s.e ELSE 0))
                     /\ Dy!WithinUlps(E.res.from_s, Ur[4], Ur[E.u].m, <<>>, 1)
 
+(* JD / MJD constructors in the GNSS scales: a canonical value in that scale (their meaning is the library's) *)
+TrFromViewAny == IsOp("from_view_any") /\ KeepD /\ KeepS /\ KeepW /\ UNCHANGED sw /\ IsEp(E.res) /\ IsFin(E.x)
+               /\ e' = EV(E.res) /\ e'.ts = E.ts /\ M!Canonical(<<E.res.c, Mg(E.res.n)>>) /\ eout' = <<"epoch", e'>>
+
 (* C20: day of year *)
 YearStart(ts, y) == X!FromFieldsRaw(ts, y, 1, 1, 0, 0, 0, 0)
 TrDoy == IsOp("doy") /\ KeepAll /\ Has(E.res, "year") /\
@@ -698,7 +702,7 @@ FloatNext ==
   \/ Dev_F1F
   \/ TrF64Unit \/ TrMulF64 \/ (TrToUnit /\ UNCHANGED sw) \/ TrSweepUnit
   \/ ((TrViewDur \/ TrViewF64 \/ TrDoy) /\ UNCHANGED sw) \/ TrFromView \/ TrFromDoy \/ TrParseNumeric
-  \/ TrFromUnixDur \/ TrComposeF64 \/ TrUnitConsts
+  \/ TrFromUnixDur \/ TrComposeF64 \/ TrUnitConsts \/ TrFromViewAny
 
 -----------------------------------------------------------------------------
 (* Extras: behaviour beyond the listed properties (spec/Extras.tla); run by `bin/check EXTRAS` only *)
